@@ -18,7 +18,7 @@ VACUITY_ALLOWED = [
 R1 = "R1 mutual exclusion of channel critical sections and visibility between them (object of C17; the spin lock's exclusion under the C11 memory model is assumed, U2 proves only the sequential contracts of RawMutexLock)"
 R2 = "R2 signal protocol across threads: a waiter popped by exactly one peer is completed by that peer's send/recv/terminate and its owner observes the outcome and payload (Signal::wait / Signal::wake are trusted; release/acquire pairing not modelled)"
 R3 = "R3 lifetime/pinning: a signal's memory is valid until its owner observed a final state or removed it under the lock; futures are not moved while registered (Pin dropped by rewrite X3)"
-R4 = "R4 wake dispatches on the waiter's own KanalWaker kind (sync branch unreachable by any installed tool)"
+R4 = "R4 wake dispatches on the waiter's own KanalWaker kind: PROVED sequentially in U2 (O-wake.dispatch: an async waiter's waker is invoked, a sync waiter is unparked unless the peer's exchange found it still spinning); that the unpark / wake actually reaches a parked thread / task is liveness and assumed"
 A1 = "A1 usize is 64 bit (global size_of usize == 8)"
 A2 = "A2 collection lengths < 2^62 (only for overflow-freedom of drain_into's capacity arithmetic)"
 A3 = "A3 fewer than 2^32-1 live handles per side (count += 1 does not overflow)"
@@ -64,7 +64,7 @@ PROPS = {
               "Kani: KanalPtr and Signal transport every value bit-for-bit per size class (complete per instance); Verus: a receiver reads a slot only with evidence of delivery and with the size dispatch consistent"),
     "C05": mk(["u1"], T_SIGNAL, [R1, R2, R3, A1, A5], "MaybeUninit typestate + scope-exit obligations on every lent slot + Option post-conditions"),
     "C08": mk(["u1", "u2", "glue"], T_SIGNAL + T_U2, [R1, R2, R3, A1, A2, A5], "len <= capacity is part of the lock invariant; admission post-conditions"),
-    "C09": mk(["u1"], T_SIGNAL, [R1, R2, R3, R4, A1, A5], "all contracts are proved for all four handle types and never mention the flavour of a waiter; conversions are transmutes (shape check)"),
+    "C09": mk(["u1", "u2"], T_SIGNAL + T_U2, [R1, R2, R3, R4, A1, A5], "all contracts are proved for all four handle types and never mention the flavour of a waiter; conversions are transmutes (shape check)"),
     "C10": mk(["u1", "u2", "glue"], T_SIGNAL + T_U2, [R1, R2, R3, A1, A5], "close contract; closed is absorbing on every entry point"),
     "C11": mk(["u1", "u2", "glue"], T_SIGNAL + T_U2, [R1, R2, R3, A1, A5], "Drop contracts; drain before SendClosed"),
     "C12": mk(["u1"], [], [R1, A1, A3, A5], "+-1 contracts on every clone/drop/convert; conversions are transmutes (shape check)"),
